@@ -399,6 +399,9 @@ def corpus():
                                    _st("list.sorted", src=0, reverse=False), _st("list.append", src=0, other=0, sort=True),
                                    _st("list.move_start_to", src=1, to=100), _st("list.deepcopy", src=2), _st("list.wrap", src=0),
                                    _st("list.slice", src=0, a=0, b=2), _st("list.mask", src=0, bits=5, all=False)]))
+    # a view of a view reaches the base frame through memory (minimised disagreement of an early version of this check)
+    c.append(_h("osu", 4, [osu1], [_st("list.slice", src=0, a=0, b=3), _st("list.slice", src=5, a=0, b=2), _st("list.wrap", src=6),
+                                   _st("list.deepcopy", src=7), _st("list.sorted", src=6, reverse=True)]))
     c.append(_h("osu", 4, [osu1], [_st("ptn.from_note_lists", tails=True), _st("ptn.group", v=100, h=None, jack=True),
                                    _st("ptn.combinations", size=2, size2=False, chord=False, combo=False, typ=False)]))
     qua = dict(lists=dict(hits=_lst(dict(offset=[0, 250, 500], column=[0, 1, 2], keysounds=[[], ["k1"], []])),
@@ -1022,6 +1025,21 @@ def conv_entries(tgt, r):
 
 # ============================================================================================ run
 
+def arg_closure(o, heap):
+    """cells reachable from an argument: by reference (walk) and through memory — a frame that is a view (`tl[a:b]`)
+    reaches the frame whose buffers it aliases"""
+    cells = [[p, r] for p, r in walk(o, heap)]
+    have = {r for _, r in cells}
+    for p, r in list(cells):
+        if not is_leaf(heap.objs[r]):
+            continue
+        for q in range(len(heap.objs)):
+            if q not in have and is_leaf(heap.objs[q]) and aliased(heap.objs[r], heap.objs[q]):
+                have.add(q)
+                cells.append([p + "~base", q])
+    return cells
+
+
 def table(drv):
     if not _TABLE:
         t = drv.call("c14.table")["ok"]
@@ -1078,7 +1096,7 @@ def observe(case):
         except Skip:
             tags.append("skip")
             continue
-        arg_cells = [[[p, r] for p, r in walk(o, heap)] for o in args]
+        arg_cells = [arg_closure(o, heap) for o in args]
         before = snap()
         n = len(before)
         try:
@@ -1189,6 +1207,7 @@ def run(case, drv):
     dom = bool(r["legal"]) and not kf_events
     tags = tags + [k for k in set(kf_events) if k]
     if bad:
+        bad.sort(key=lambda b: b.get("kf") is not None)          # events outside every known finding first
         detail["events"] = bad[:4]
     ncalls = sum(1 for ev in obs["events"] if not ev.get("raised"))
     return dict(claim="history", ok=ok, agree=agree, dom=dom, kf=kf, tags=sorted(set(tags)), nontrivial=ncalls > 0 and nonempty,
